@@ -14,3 +14,7 @@ package system
 //@   requires property == "bucket" ==> strOps(operator)
 //@   requires property == "id" ==> ordOps(operator)
 //@   ensures err != nil ==> isErr(err, common.ErrInvalidQuery) || isErr(err, ErrMissingFeature)
+
+//@ func (h ledgersResourceHandler) Expand(q common.ResourceQuery[ListLedgersQueryPayload], property string) (r *bun.SelectQuery, j *common.JoinCondition, err error)
+//@   property C38
+//@   ensures err != nil && isErr(err, common.ErrInvalidQuery)
